@@ -15,6 +15,7 @@ PROG_CLASSES = [
     ("loop", 300, 15000),
     ("empty", 200, 8000),
     ("boolnest", 200, 8000),
+    ("dead", 200, 8000),
 ]
 
 
